@@ -222,6 +222,7 @@ def std_kinds(names, cfg_fn=None, cfg_fn2=None, partial_fn=None):
       'ddict1': Kind('ddict1', 1, False, lambda v: collections.defaultdict(
           list, {'a': v[0]})),
       'tmp': Kind('tmp', 2, False, lambda v: N.Tmp(*v)),
+      'ntsub': Kind('ntsub', 2, False, lambda v: N.PairSub(*v)),
       'tvv': Kind('tvv', 1, False, lambda v: N.TagA.new(v[0]), True),
       'tv': Kind('tv', 1, True, lambda v: (N.TagA.new() if v[0] is UNSET
                                            else N.TagA.new(v[0])), True),
